@@ -110,7 +110,7 @@ pub fn drop_full_queue(a: &Value) -> Value {
         let c = Arc::new(c);
         let mut sub: Option<Subscription<String>> = None;
         let mut handler: Option<Subscription<String>> = None;
-        if kind == "subscription" {
+        if kind == "subscription" || kind == "explicit" {
             sub = Some(subscribe(&c, &mut s, "A").await);
         } else {
             handler = Some(c.subscribe_to_method::<String>("event").await.expect("handler registered"));
@@ -122,6 +122,12 @@ pub fn drop_full_queue(a: &Value) -> Value {
         tokio::time::sleep(std::time::Duration::from_millis(100)).await;
         let h2 = tokio::spawn(async move { c2.request::<Value, _>("y", rpc_params![]).await });
         tokio::time::sleep(std::time::Duration::from_millis(100)).await;
+        let mut explicit = None;
+        if kind == "explicit" {
+            // the application ends the subscription itself, the queue being full at that moment
+            let sb = sub.take().unwrap();
+            explicit = Some(tokio::spawn(async move { tokio::time::timeout(std::time::Duration::from_secs(3), sb.unsubscribe()).await }));
+        }
         drop(sub.take());
         drop(handler.take());
         tokio::time::sleep(std::time::Duration::from_millis(100)).await;
@@ -136,8 +142,14 @@ pub fn drop_full_queue(a: &Value) -> Value {
         }
         let _ = h1.await;
         let _ = h2.await;
+        if explicit.is_some() {
+            while let Some(rq) = s.try_next_request(400).await {
+                if rq["method"] == "unsub" { unsubs += 1; }
+                s.push(json!({"jsonrpc":"2.0","id":rq["id"],"result":true}));
+            }
+        }
         // a further notification arrives
-        if kind == "subscription" {
+        if kind == "subscription" || kind == "explicit" {
             s.push(json!({"jsonrpc":"2.0","method":"sub","params":{"subscription":"A","result":"late"}}));
         } else {
             s.push(json!({"jsonrpc":"2.0","method":"event","params":"late"}));
@@ -146,7 +158,10 @@ pub fn drop_full_queue(a: &Value) -> Value {
             if rq["method"] == "unsub" { unsubs += 1; }
             s.push(json!({"jsonrpc":"2.0","id":rq["id"],"result":true}));
         }
-        let (violation, obs) = if kind == "subscription" {
+        let (violation, obs) = if let Some(h) = explicit {
+            let finished = matches!(h.await, Ok(Ok(Ok(()))));
+            (unsubs != 1 || !finished, json!({"unsubscribe_requests": unsubs, "unsubscribe_call_finished": finished}))
+        } else if kind == "subscription" {
             (unsubs != 1, json!({"unsubscribe_requests": unsubs}))
         } else {
             #[cfg(jsonrpsee_verif)]
@@ -157,6 +172,43 @@ pub fn drop_full_queue(a: &Value) -> Value {
             (again.is_err() || handlers_left != 0, json!({"reregister_ok": again.is_ok(), "notification_handlers_left": handlers_left}))
         };
         json!({"scenario":"c05_drop_full_queue","observed":obs,"violation":violation,
-               "why": if violation {"a closed channel discovered by a later notification was not cleaned up (no unsubscribe / handler still registered)"} else {""}})
+               "why": if violation {"the end of a subscription / handler did not reach the background task exactly once (no or repeated unsubscribe, handler still registered, or unsubscribe() never finished)"} else {""}})
+    })
+}
+
+/// A subscription whose consumer fell more than the buffer behind: `close_reason()` must say Lagged both before and after the buffered
+/// items were read and the stream ended.
+pub fn close_reason(_a: &Value) -> Value {
+    use jsonrpsee_core::client::SubscriptionCloseReason;
+    let rt = tokio::runtime::Builder::new_multi_thread().worker_threads(2).enable_all().build().unwrap();
+    rt.block_on(async move {
+        let (c, mut s) = client(ClientBuilder::default().max_buffer_capacity_per_subscription(2).request_timeout(std::time::Duration::from_secs(2)));
+        let c = Arc::new(c);
+        let mut a = subscribe(&c, &mut s, "A").await;
+        let name = |r: Option<SubscriptionCloseReason>| match r {
+            None => "None",
+            Some(SubscriptionCloseReason::Lagged) => "Lagged",
+            Some(SubscriptionCloseReason::ConnectionClosed) => "ConnectionClosed",
+        };
+        let open = name(a.close_reason());
+        for m in ["A:0", "A:1", "A:2"] {
+            s.push(msg(m));
+        }
+        let mut unsubs = 0;
+        while let Some(rq) = s.try_next_request(400).await {
+            if rq["method"] == "unsub" { unsubs += 1; }
+            s.push(json!({"jsonrpc":"2.0","id":rq["id"],"result":true}));
+        }
+        let before = name(a.close_reason());
+        let (got, ended) = drain(&mut a).await;
+        let after = name(a.close_reason());
+        // a second subscription that the server closes: not lagged
+        let mut b = subscribe(&c, &mut s, "B").await;
+        s.push(msg("closeB"));
+        let (_gb, eb) = drain(&mut b).await;
+        let closed = name(b.close_reason());
+        let violation = open != "None" || before != "Lagged" || after != "Lagged" || !ended || (eb && closed != "ConnectionClosed");
+        json!({"scenario":"c05_close_reason","observed":{"while_open":open,"lagged_before_drain":before,"lagged_after_drain":after,"delivered":got,"ended":ended,"unsubscribe_requests":unsubs,"server_closed":closed,"server_closed_ended":eb},
+               "violation":violation,"why": if violation {"close_reason() does not report a lagged subscription as Lagged (or reports a reason while open)"} else {""}})
     })
 }
